@@ -247,7 +247,7 @@ for pid, txt, part in [
             'Idempotence of a repeated merge of two different replicas is validated by the exhaustive/randomised enumeration on the real code and on the faithful model.',
      ['C13_twice (a second merge of the same source is a no-op: no events, the whole database unchanged) is stated but not proved in full; proved of it: the content of every shared entry and the own data of every shared group stay as the first merge left them (C13_twice_entry_content_partial, C13_twice_group_content_partial); proved in full: the self-merge clause (merge_self) and the third clause (C13_result_self_merge: the merge result merged back into itself), component-level idempotence']),
     ('C14', 'Kernel-checked for the whole merge, for every destination and source that are groups with pairwise distinct UUIDs below them: an entry both replicas hold has, wherever the merge leaves it, the content of the '
-            'destination\'s version unless the source\'s modification time is strictly later, then the source\'s (C14_entry_last_writer_wins); the same for a group\'s own name / notes / icon / settings (C14_group_last_writer_wins); '
+            'destination\'s version unless the source\'s modification time is strictly later, then the source\'s (C14_entry_last_writer_wins); the same for a group\'s own name / notes / icon / settings (C14_group_last_writer_wins); where the two versions differ in content, the entry / the group also carries the modification time of the later side (C14_entry_time_of_last_writer, C14_group_time_of_last_writer); '
             'with different modification times the entry\'s history represents every history item of both versions and the loser\'s uncommitted current version (C14_history_union); it lives below the group that holds it in the source when the source moved it strictly later (and the merge reaches it outside every group the destination deleted), below the destination\'s otherwise (C14_entry_last_mover_wins, C14_entry_destination_move_stands); a node only the source holds is created below the group that holds it there (C14_created_under_same_parent); every history stays newest first without a time twice (C14_histories_sorted); every source node without a tombstone in the '
             'destination (for it or a group above it) is in the result or tombstoned there (C14_source_nodes_created), no destination node is lost (C14_destination_nodes_kept); component theorems (history union is sorted, '
             'duplicate-free and contains both sides; last-writer-wins for entries and groups). The flat last-writer-wins reference (MergeSpec) is evaluated on the real result of every enumerated pair.',
